@@ -125,10 +125,16 @@ func genC10(r *drv.Rng, base []drv.SStep, cut int, mode string) c10Case {
 	}
 	fault := func(mode string, s int) {
 		c.Faults = append(c.Faults, len(c.Steps))
-		if mode != "getcut" && mode != "getcutw" {
+		if mode != "getcut" && mode != "getcutw" && mode != "getcutmany" {
 			delete(liveAck, s)
 		}
 		switch mode {
+		case "getcutmany":
+			// one abandoned Get after the other (whatever an abandoned Get keeps - a lock, a slot, a goroutine that
+			// still holds something - adds up), then the probe's Modify, Get and Flush
+			for i, n := 0, 5+r.Intn(5); i < n; i++ {
+				c.Steps = append(c.Steps, drv.SStep{K: "getcut", Cut: r.Intn(6), Stall: drv.Pick(r, 0, 0, 0, 10), Get: &drv.GetSpec{NI: drv.Pick(r, "all", "all", "name"), Name: 1, AFT: drv.Pick(r, "ALL", "ALL", "NH")}})
+			}
 		case "getcut":
 			c.Steps = append(c.Steps, drv.SStep{K: "getcut", Cut: r.Intn(16), Stall: drv.Pick(r, 0, 0, 25), Get: &drv.GetSpec{NI: drv.Pick(r, "all", "name"), Name: 1, AFT: drv.Pick(r, "ALL", "ALL", "NHG", "IPV4", "NH")}})
 		case "getcutw":
@@ -309,6 +315,9 @@ func runC10(args []string) error {
 				c.Steps[c.Faults[0]].Cut = 1 + 3*k
 				cases = append(cases, c)
 			}
+			for k := 0; k < 2; k++ {
+				cases = append(cases, genC10(r, base, len(base), "getcutmany"))
+			}
 			for k := 0; k < 18; k++ {
 				for _, stall := range []int{0, 25} {
 					c := genC10(r, base, len(base), "getcut")
@@ -410,7 +419,7 @@ func runC10(args []string) error {
 		return err
 	}
 	rep := drv.Report{Property: "C10", Seed: *f.Seed, Shard: drv.ShardSize, Stats: map[string]int{}, Cases: len(cases),
-		Rule: "every prefix of base Modify scripts (negotiate, announce, program several entries per table incl. held operations, re-announce) cut by each of {half-close, cancellation, transport failure on a response, the connection dying while a response is being written (the read side fails first, the stuck write afterwards)}; the transport failing after each j of the k responses of a multi-operation request; a Get abandoned after each k responses (failing at once or after a stall; also while a write of the live primary is queued on the instance); followed by a probe session (negotiate, win, ADD, Get, Flush) and by random sequences of 0-2 further faults each followed by a probe; every case in a worker process; non-trivial = the fault hit a session that had programmed or held at least one operation; distinct by (script, cut, mode) text"}
+		Rule: "every prefix of base Modify scripts (negotiate, announce, program several entries per table incl. held operations, re-announce) cut by each of {half-close, cancellation, transport failure on a response, the connection dying while a response is being written (the read side fails first, the stuck write afterwards)}; the transport failing after each j of the k responses of a multi-operation request; a Get abandoned after each k responses (failing at once or after a stall; also while a write of the live primary is queued on the instance; also 5-9 abandoned Gets in a row); followed by a probe session (negotiate, win, ADD, Get, Flush) and by random sequences of 0-2 further faults each followed by a probe; every case in a worker process; non-trivial = the fault hit a session that had programmed or held at least one operation; distinct by (script, cut, mode) text"}
 	var coq []string
 	distinct := map[string]bool{}
 	for i := range cases {
